@@ -149,6 +149,8 @@ type world struct {
 
 	lastVotes    muxdrv.VotePattern
 	lastVotesTag string
+
+	rt *rtScen // stream roothash
 }
 
 type histResult struct {
@@ -159,6 +161,7 @@ type histResult struct {
 	txFailed  int
 	outcome   string
 	finding   bool // the violation is the registered-key finding of script govweights
+	findingKey string // the violation is reported as a keyed finding (known_findings.json decides)
 	hist      map[string]int
 }
 
@@ -199,6 +202,9 @@ func (w *world) mutate(doc *genesis.Document) {
 	doc.Scheduler.Parameters.RewardFactorEpochElectionAny = qBig(k.FactorElection)
 	doc.Scheduler.Parameters.MinValidators = k.MinValidators
 	doc.Governance.Parameters.AllowVoteWithoutEntity = k.VoteNoEntity
+	if w.d.Stream == "roothash" {
+		rtMutate(doc)
+	}
 	st.CommonPool = qBig(k.Pool)
 	i := 0
 	for _, v := range w.g0vals {
@@ -239,6 +245,15 @@ func newWorld(d histDesc, run *runner) (*world, error) {
 	if s := scriptByName(d.Script); s != nil && s.knobs != nil {
 		s.knobs(w.k)
 	}
+	if d.Stream == "roothash" {
+		rtKnobs(w.k)
+		w.k.EpochInterval = int64(3 + rng.Intn(2))
+		w.k.Commission[0] = []uint64{5000, 20_000, 99_999, 100_000}[rng.Intn(4)]
+		if d.Script == scriptRtSlashReward {
+			w.k.Commission[0], w.k.EpochInterval = 100_000, 3
+		}
+		w.k.Pool = pickBig(rng, big.NewInt(1000), big.NewInt(1_000_000_000))
+	}
 	k := w.k
 	// the addresses are needed inside Mutate, before the Genesis object exists: derive them the
 	// same way NewGenesis does (keys are pure functions of seed and index).
@@ -264,6 +279,9 @@ func newWorld(d histDesc, run *runner) (*world, error) {
 		}
 	}
 	w.c = muxdrv.NewChain(g)
+	if d.Stream == "roothash" {
+		w.rtInit()
+	}
 	nProps := 2
 	if k.Twin || k.Validators == 1 {
 		nProps = 1
@@ -274,6 +292,11 @@ func newWorld(d histDesc, run *runner) (*world, error) {
 		// closing epoch, which that app reports as a fatal sanity failure.
 		sanity := int64(1)
 		if k.Mock {
+			sanity = 0
+		}
+		if d.Stream == "roothash" && d.HSeed%2 == 1 {
+			// half of the roothash histories run without the debug sanity app, so that a defect
+			// shows as the production failure (panic of the real app) rather than as a sanity report
 			sanity = 0
 		}
 		r, err := muxdrv.NewReplica(g, muxdrv.ReplicaConfig{Name: fmt.Sprintf("p%d", i), Identity: g.Validators[i].Identity, SanityInterval: sanity})
@@ -493,6 +516,9 @@ func (w *world) fail(h int64, what string, err error) {
 	if w.d.Script == "govweights" && strings.Contains(detail, "divide shareNextProposer") {
 		w.res.finding = true
 	}
+	if w.d.Stream == "roothash" && strings.Contains(detail, "failed transferring reward") && strings.Contains(detail, "failed to deposit to escrow") {
+		w.res.findingKey = findingTFC
+	}
 }
 
 // step executes one block on all replicas; false = history over.
@@ -654,7 +680,9 @@ func runHistory(d histDesc, run *runner, record bool) *histResult {
 	sc := scriptByName(d.Script)
 	for b := 0; b < d.Blocks; b++ {
 		var bp *blockPlan
-		if sc != nil {
+		if d.Stream == "roothash" {
+			bp = w.roothashBlock(b)
+		} else if sc != nil {
 			bp = sc.block(w, b)
 		} else {
 			bp = w.randomBlock(b)
